@@ -135,7 +135,10 @@ def hy_program(prog, scope):
     for i, c in enumerate(prog["cases"], 1):
         ns = sorted(names(c["pat"]))
         body = f"#({i} {{" + "  ".join(f'"{n}" {n}' for n in ns) + "})"
-        g = "" if c["guard"] == "none" else f" :if {HY_GUARD[c['guard']]}"
+        if c["guard"] == "stmt-all":
+            g = " :if (do (setv hyv-g 1) (isinstance [" + " ".join(ns) + "] list))"
+        else:
+            g = "" if c["guard"] == "none" else f" :if {HY_GUARD[c['guard']]}"
         cases.append(f"  {hy_pat(c['pat'])}{g} {body}")
     m = f"(match {hy_val(prog['subject'])}\n" + "\n".join(cases) + ")"
     if scope == "fn":
@@ -149,7 +152,10 @@ def py_program(prog):
     lines = ["R = None", f"match {py_val(prog['subject'])}:"]
     for i, c in enumerate(prog["cases"], 1):
         ns = sorted(names(c["pat"]))
-        g = "" if c["guard"] == "none" else f" if {PY_GUARD[c['guard']]}"
+        if c["guard"] == "stmt-all":
+            g = " if isinstance([" + ", ".join(ns) + "], list)"
+        else:
+            g = "" if c["guard"] == "none" else f" if {PY_GUARD[c['guard']]}"
         lines.append(f"    case {py_pat(c['pat'])}{g}:")
         lines.append(f"        R = ({i}, {{" + ", ".join(f"{n!r}: {n}" for n in ns) + "})")
     return "\n".join(lines) + "\n"
@@ -370,7 +376,7 @@ def gen_programs(rng, n):
         cases = []
         for _ in range(ncases):
             p = gen_pat(rng, rng.choice([1, 2, 2, 3]), set())
-            g = rng.choice(["none", "none", "none", "T", "F", "stmt-T", "stmt-F", "x1", "stmt-x1"])
+            g = rng.choice(["none", "none", "none", "T", "F", "stmt-T", "stmt-F", "x1", "stmt-x1", "stmt-all", "stmt-all"])
             if g in ("x1", "stmt-x1") and "x" not in names(p):
                 g = "stmt-T"
             cases.append({"pat": p, "guard": g})
